@@ -45,6 +45,9 @@ enum Op {
     HasImagesF(u8),
     /// set_embedded_image_filter(bits), then lookup_glyph_image(g, 12, One)
     ImageF(u8, u16),
+    /// set_embedded_image_filter(font.glyph_table_flags) - the tables the font really has, the natural way to opt into
+    /// every image table - then lookup_glyph_image(g, 12, One)
+    ImageOwnFlags(u16),
     Tables,
 }
 
@@ -61,7 +64,7 @@ impl Op {
             Op::HAdvance(_) | Op::VAdvance(_) => "advance",
             Op::Names => "glyph_names",
             Op::HasImages | Op::Image(_) => "images",
-            Op::HasImagesF(_) | Op::ImageF(..) => "images-with-filter-argument",
+            Op::HasImagesF(_) | Op::ImageF(..) | Op::ImageOwnFlags(_) => "images-with-filter-argument",
             Op::Tables => "table-loaders",
         }
     }
@@ -88,6 +91,7 @@ impl Op {
             Op::Image(g) => format!("lookup_glyph_image({}, 16, ThirtyTwo)", g),
             Op::HasImagesF(b) => format!("set_embedded_image_filter({:#04x}); has_embedded_images()", b),
             Op::ImageF(b, g) => format!("set_embedded_image_filter({:#04x}); lookup_glyph_image({}, 12, One)", b, g),
+            Op::ImageOwnFlags(g) => format!("set_embedded_image_filter(font.glyph_table_flags); lookup_glyph_image({}, 12, One)", g),
             Op::Tables => "gdef_table/kern_table/vhea_table/morx_table/os2_table".into(),
         }
     }
@@ -134,8 +138,13 @@ fn apply(font: &mut F<'_>, op: &Op, fvar: Option<&FvarTable<'_>>) -> String {
             font.set_embedded_image_filter(GlyphTableFlags::from_bits_truncate(*b));
             format!("{:?}", font.has_embedded_images())
         }
-        Op::ImageF(b, g) => {
-            font.set_embedded_image_filter(GlyphTableFlags::from_bits_truncate(*b));
+        Op::ImageF(..) | Op::ImageOwnFlags(_) => {
+            let (flags, g) = match op {
+                Op::ImageF(b, g) => (GlyphTableFlags::from_bits_truncate(*b), g),
+                Op::ImageOwnFlags(g) => (font.glyph_table_flags, g),
+                _ => unreachable!(),
+            };
+            font.set_embedded_image_filter(flags);
             match font.lookup_glyph_image(*g, 12, BitDepth::One) {
                 Ok(Some(b)) => {
                     let (kind, data): (&str, &[u8]) = match &b.bitmap {
@@ -601,8 +610,29 @@ fn subjects(ctx: &Ctx) -> Vec<Subject> {
         v.push(Subject { name: "synthetic-eblc-only-filter-all".into(), data: data.clone(), filter: Some(all), ops });
         let dflt_filter = (GlyphTableFlags::SVG | GlyphTableFlags::SBIX | GlyphTableFlags::CBDT).bits();
         let ebdt = GlyphTableFlags::EBDT.bits();
-        let ops = vec![Op::HasImagesF(dflt_filter), Op::HasImagesF(ebdt), Op::ImageF(dflt_filter, 1), Op::ImageF(ebdt, 1), Op::ImageF(all, 4), Op::ImageF(GlyphTableFlags::GLYF.bits(), 1), Op::HAdvance(1)];
+        let ops = vec![Op::HasImagesF(dflt_filter), Op::HasImagesF(ebdt), Op::ImageF(dflt_filter, 1), Op::ImageF(ebdt, 1), Op::ImageF(all, 4), Op::ImageF(GlyphTableFlags::GLYF.bits(), 1), Op::ImageOwnFlags(1), Op::HAdvance(1)];
         v.push(Subject { name: "synthetic-eblc-only-filter-as-argument".into(), data, filter: None, ops });
+    }
+    // 4c. GSUB with a single script and no DFLT: a run in any other script has no lookups at all (the reserved empty
+    //     lookup list), whatever was shaped before
+    {
+        let cmap = [(b'a' as u32, 1u16), (b'b' as u32, 2), (0x25CC, 7)];
+        let mut sl = W::new();
+        sl.u16(1).tag(tag::LATN).u16(8);
+        sl.u16(4).u16(0).u16(0).u16(0xFFFF).u16(1).u16(0);
+        let gsub = gsub_one_lookup_per_feature(&sl.done(), &[tag::LIGA]);
+        let data = otmodel::tables::minimal_font(8, &cmap, &[(tag::GSUB, gsub)]);
+        let shape = |script: u32, feats: FeatSel| Op::Shape { text: "ab", script, lang: None, feats, tuple: None, kerning: true };
+        let ops = vec![
+            shape(tag::LATN, FeatSel::Mask(dflt)),
+            shape(tag::CYRL, FeatSel::Mask(dflt)),
+            shape(tag::GREK, FeatSel::Mask(smcp)),
+            shape(tag::LATN, FeatSel::Mask(smcp)),
+            shape(tag::CYRL, FeatSel::Custom(vec![tag::LIGA])),
+            shape(tag::LATN, FeatSel::Custom(vec![tag::LIGA])),
+            Op::Tables,
+        ];
+        v.push(Subject { name: "synthetic-gsub-latn-only-no-dflt".into(), data, filter: None, ops });
     }
     // 5. symbol-encoded font (lazy OS/2 usFirstCharIndex slot)
     {
